@@ -108,6 +108,9 @@ func rawEnforced(c *lib.Config, rm *lib.RegistrationManager) (string, string) {
 			if !hit(a) {
 				return "entry-not-enforced:" + list, fmt.Sprintf("%s entry %q is not enforced for %v", list, s, a)
 			}
+			if u := a.Unmap(); u != a && !hit(u) {
+				return "entry-not-enforced:" + list, fmt.Sprintf("%s entry %q is not enforced for %v", list, s, u)
+			}
 		}
 		return "", ""
 	}
@@ -230,7 +233,8 @@ func main() {
 	garbage := writeFile("garbage.mmdb", "this is not a maxmind database")
 	valid4, valid6 := `"10.0.0.0/8"`, `"fc00::/7"`
 	listVals := func(valid string, malformed string) []string {
-		return []string{"", "[]", "[" + valid + "]", "[" + valid + ", " + malformed + "]", "[" + malformed + "]", "[" + valid[:len(valid)-1] + ` "]`}
+		// (the last one: other notations of valid entries - an IPv4 subnet written as an IPv4-mapped IPv6 CIDR, an IPv6 subnet)
+		return []string{"", "[]", "[" + valid + "]", "[" + valid + ", " + malformed + "]", "[" + malformed + "]", "[" + valid[:len(valid)-1] + ` "]`, "[" + valid + `, "::ffff:172.20.0.0/110", "fd00:77::/32"]`}
 	}
 	liveKeys := []kv{
 		{"cache_expiration_time", []string{"", `""`, `"2.0h"`, `"bogus"`}},
